@@ -97,7 +97,7 @@ changes so far; archived as `/verif/seeded/<id>-3a`, `-3b`, `-3c`.
 '''+"\n".join(r3)+f'''
 
 Status counts: {dict(c3)}. Roughly a third were caught by the checks as they stood, the rest
-needed a strengthening - a much lower as-built rate than in rounds 1 and 2, which is the point of asking
+needed a strengthening and three are not covered (stated limits, §5) - a much lower as-built rate than in rounds 1 and 2, which is the point of asking
 for changes that avoid everything tried before. None of the strengthenings refers to the change
 that prompted it. What round 3 taught:
 (1) **An alphabet entry can be vacuous without anyone noticing** - the scripted "connection
